@@ -441,6 +441,10 @@ func (res *Resource) Purge(keepExtra int) { //nolint:gocognit
 		keepExtra = 2
 	}
 
+	// The boundary search expects the newest version first. Versions added
+	// since the last version selection are appended unsorted.
+	sort.Sort(res)
+
 	// Search for purge boundary.
 	var purgeBoundary int
 	var skippedActiveVersion bool
